@@ -9,6 +9,7 @@ package main
 import (
 	"fmt"
 	"go/ast"
+	"strings"
 )
 
 // c20EndsBookkeeping: every assignment to g.startNodes / g.endNodes inside addEdgeWithMappings,
@@ -69,9 +70,27 @@ func factsC20Wf(r *Repo) []Fact {
 		recv := c20Recv(fd)
 		reads, checked := 0, 0
 		var walk func(list []ast.Stmt)
+		// keys that come out of `for _, k := range wf.workflowNodeKeys` were stored together with
+		// their map entry (initNode), so a read indexed by such a loop variable cannot miss: those
+		// reads are not counted
+		declared := map[string]bool{}
+		ast.Inspect(fd.Body, func(x ast.Node) bool {
+			if rs, ok := x.(*ast.RangeStmt); ok && exprString(rs.X) == recv+".workflowNodeKeys" {
+				if id, ok := rs.Value.(*ast.Ident); ok && id.Name != "_" {
+					declared[id.Name] = true
+				}
+			}
+			return true
+		})
 		isRead := func(e ast.Expr) bool {
 			ix, ok := e.(*ast.IndexExpr)
-			return ok && exprString(ix.X) == recv+".workflowNodes"
+			if !ok || exprString(ix.X) != recv+".workflowNodes" {
+				return false
+			}
+			if id, ok := ix.Index.(*ast.Ident); ok && declared[id.Name] {
+				return false
+			}
+			return true
 		}
 		walk = func(list []ast.Stmt) {
 			for i, st := range list {
@@ -123,6 +142,83 @@ func factsC20Wf(r *Repo) []Fact {
 		}
 	} else {
 		out = append(out, unknownFact("wfBranchEndsChecked", "Bool", "false", "compose", "method Workflow.compile not found"))
+	}
+
+	// Workflow.compile: the loop that runs the recorded inputs (`for … range X { … n.addInputs … }`):
+	// does X have map type (field declared `map[...]...` in the Workflow struct) or slice type?
+	if fd, file := cp.Func("Workflow", "compile"); fd != nil && fd.Body != nil {
+		recv := c20Recv(fd)
+		fieldKinds := map[string]string{} // field of Workflow -> "map" | "slice" | other
+		for _, n := range cp.Names {
+			for _, d := range cp.Files[n].Decls {
+				gd, ok := d.(*ast.GenDecl)
+				if !ok {
+					continue
+				}
+				for _, sp := range gd.Specs {
+					ts, ok := sp.(*ast.TypeSpec)
+					if !ok || ts.Name.Name != "Workflow" {
+						continue
+					}
+					st, ok := ts.Type.(*ast.StructType)
+					if !ok {
+						continue
+					}
+					for _, f := range st.Fields.List {
+						kind := "other"
+						switch f.Type.(type) {
+						case *ast.MapType:
+							kind = "map"
+						case *ast.ArrayType:
+							kind = "slice"
+						}
+						for _, nm := range f.Names {
+							fieldKinds[nm.Name] = kind
+						}
+					}
+				}
+			}
+		}
+		loops, overMap, overSlice, overWhat := 0, 0, 0, ""
+		ast.Inspect(fd.Body, func(x ast.Node) bool {
+			rs, ok := x.(*ast.RangeStmt)
+			if !ok {
+				return true
+			}
+			uses := false
+			ast.Inspect(rs.Body, func(y ast.Node) bool {
+				if se, ok := y.(*ast.SelectorExpr); ok && se.Sel.Name == "addInputs" {
+					uses = true
+				}
+				return true
+			})
+			// only the outermost loop that mentions addInputs counts (the inner one ranges over n.addInputs itself)
+			if !uses || strings.HasSuffix(exprString(rs.X), ".addInputs") {
+				return true
+			}
+			loops++
+			overWhat = exprString(rs.X)
+			if se, ok := rs.X.(*ast.SelectorExpr); ok && exprString(se.X) == recv {
+				switch fieldKinds[se.Sel.Name] {
+				case "map":
+					overMap++
+				case "slice":
+					overSlice++
+				}
+			}
+			return false
+		})
+		where := fmt.Sprintf("compose/%s: func (Workflow) compile: the loop that replays the recorded inputs ranges over %s", file, overWhat)
+		switch {
+		case loops == 1 && overSlice == 1:
+			out = append(out, boolFact("wfInputsReplayedInDeclaredOrder", true, where+" (a slice field: declaration order)"))
+		case loops == 1 && overMap == 1:
+			out = append(out, boolFact("wfInputsReplayedInDeclaredOrder", false, where+" (a map field: Go map iteration order)"))
+		default:
+			out = append(out, unknownFact("wfInputsReplayedInDeclaredOrder", "Bool", "false", "compose", "Workflow.compile: loop over the recorded inputs (addInputs) not recognised"))
+		}
+	} else {
+		out = append(out, unknownFact("wfInputsReplayedInDeclaredOrder", "Bool", "false", "compose", "method Workflow.compile not found"))
 	}
 	return out
 }
